@@ -100,6 +100,7 @@ class Parser:
         self.t, self.i = toks, 0
         self.src = srcname or SRC
         self.enums = {}          # name -> [variants]  (field-less enums; used by t_prep)
+        self.aliases = {}        # `type X<..> = Y;` items: name -> tokens of Y (used by t_parser)
 
     def peek(self, k=0):
         return self.t[min(self.i + k, len(self.t) - 1)]
@@ -153,12 +154,14 @@ class Parser:
                 self.eat()
                 self.expect_id()
                 self.expect_p(")")
+            return True
+        return False
 
     def items(self):
         fns, structs = [], {}
         while self.peek().kind != "EOF":
             self.skip_attr()
-            self.vis()
+            top_pub = self.vis()
             if self.isid("use"):
                 while not self.isp(";"):
                     if self.eat().kind == "EOF":
@@ -181,6 +184,21 @@ class Parser:
                         self.eat()
                 self.eat()
                 structs[name] = fields
+            elif self.isid("type"):
+                self.eat()
+                name = self.expect_id()
+                while not self.isp("="):
+                    if self.eat().kind == "EOF":
+                        self.err("bad type alias")
+                self.eat()
+                rhs = []
+                while not self.isp(";"):
+                    tk = self.eat()
+                    if tk.kind == "EOF":
+                        self.err("bad type alias")
+                    rhs.append(str(tk.val))
+                self.eat()
+                self.aliases[name] = " ".join(rhs)
             elif self.isid("enum"):
                 self.eat()
                 name = self.expect_id()
@@ -206,13 +224,15 @@ class Parser:
                 owner = " ".join(hdr)
                 while not self.isp("}"):
                     self.skip_attr()
-                    self.vis()
+                    pub = self.vis()
                     fn = self.fn()
+                    fn["pub"] = pub
                     fn["impl"] = owner
                     fns.append(fn)
                 self.eat()
             elif self.isid("fn"):
                 fn = self.fn()
+                fn["pub"] = top_pub
                 fn["impl"] = None
                 fns.append(fn)
             else:
@@ -238,6 +258,9 @@ class Parser:
                     mut = True
                 self.expect_id("self")
                 selfk = "mut" if mut else "ref"
+            elif self.isid("self") and (self.isp(",", 1) or self.isp(")", 1)):
+                self.eat()
+                selfk = "val"                              # `self` by value (t_parser; t_lexer / t_prep refuse it)
             else:
                 if self.isid("mut"):
                     self.eat()
@@ -382,7 +405,8 @@ class Parser:
         if self.isp("&"):
             line = self.eat().line
             if self.isid("mut"):
-                self.err("references / dereferences are outside the subset")
+                self.eat()
+                return ("refmut", self.unary(), line)
             return ("ref", self.unary(), line)
         return self.postfix()
 
@@ -518,6 +542,16 @@ class Parser:
                 guard = self.expr()
             self.expect_p(")")
             return ("matches", e, pats, guard, line)
+        if name == "assert":
+            e = self.expr()
+            self.expect_p(")")
+            return ("assert", e, line)
+        if name in ("format", "eco_format"):
+            tk = self.eat()
+            if tk.kind != "STR":
+                self.err("%s! needs a literal format string" % name)
+            self.expect_p(")")
+            return ("format", tk.val, line)
         self.err("macro %s! is outside the subset" % name)
 
     def if_(self):
@@ -690,6 +724,49 @@ class Gen:
                 raise TranslateError("%s:%d: two functions named %s" % (SRC, f["line"], f["name"]))
             self.by_name[f["name"]] = f
         self.tmp = 0
+        self.canonicalize()
+
+    # canonical names of the PRIVATE functions, in the order in which a depth-first walk of the call graph from the
+    # API functions (trait impl + pub, in file order) discovers them: renaming a private fn does not change the output
+    CANON_PRIVATE = ["next_token", "whitespace", "line_comment", "is_newline", "block_comment", "number",
+                     "is_identifier_start", "identifier", "is_identifier_continue", "error", "string", "var_name",
+                     "code_fragment", "bangoperator", "preprocessor"]
+
+    def canonicalize(self):
+        self.canon = {}
+        api = [f["name"] for f in self.fns if f.get("pub") or (f["impl"] and " for " in " " + f["impl"] + " ")]
+        order, seen = [], set()
+
+        def refs(node, acc):
+            if isinstance(node, tuple):
+                if node and node[0] == "method" and self.is_self(node[1]) and node[2] in self.by_name:
+                    acc.append(node[2])
+                if node and node[0] == "path" and len(node[1]) == 1 and node[1][0] in self.by_name:
+                    acc.append(node[1][0])
+                for x in node:
+                    refs(x, acc)
+            elif isinstance(node, list):
+                for x in node:
+                    refs(x, acc)
+            return acc
+
+        def visit(n):
+            if n in seen:
+                return
+            seen.add(n)
+            order.append(n)
+            for r in refs(self.by_name[n]["body"], []):
+                visit(r)
+        for n in api:
+            visit(n)
+        private = [n for n in order if n not in api]
+        unreached = [f["name"] for f in self.fns if f["name"] not in seen]
+        if len(private) == len(self.CANON_PRIVATE) and not unreached and not (set(self.CANON_PRIVATE) & set(api)):
+            self.canon = dict(zip(private, self.CANON_PRIVATE))
+        self.discovery = private
+
+    def cn(self, name):
+        return getattr(self, "canon", {}).get(name, name)
 
     def fail(self, line, msg):
         raise TranslateError("%s:%d: %s" % (self.SRC, line, msg))
@@ -749,7 +826,7 @@ class Gen:
             if p in CHAR_PRED_PATHS:
                 return CHAR_PRED_PATHS[p]
             if len(p) == 1 and p[0] in self.by_name and self.by_name[p[0]]["self"] is None:
-                return "g_" + p[0]
+                return "g_" + self.cn(p[0])
             self.fail(e[2], "unsupported predicate %s" % "::".join(p))
         if e[0] == "closure":
             if len(e[1]) != 1:
@@ -865,8 +942,10 @@ class Gen:
                     tg = "(let %s := %s in %s)" % (x, d, tg)
                 return ("p", "(%s && %s)" % (test, tg))
             return self.lift([e[1]], ctx, f)
-        if t == "ref":
+        if t in ("ref", "refmut"):
             self.fail(e[2], "references / dereferences are outside the subset")
+        if t in ("assert", "format"):
+            self.fail(e[2], "macro %s! is outside the subset" % t)
         if t == "field":
             if e[1] == ("path", ["self"], e[1][2] if len(e[1]) > 2 else 0) or (e[1][0] == "path" and e[1][1] == ["self"]):
                 self.fail(0, "bare field access self.%s" % e[2])
@@ -899,7 +978,7 @@ class Gen:
         if p == ["u64", "from_str_radix"]:
             return self.lift(args, ctx, lambda a: ("p", "u64_from_str_radix %s %s" % (a[0], a[1])))
         if len(p) == 1 and p[0] in self.by_name and self.by_name[p[0]]["self"] is None:
-            return self.lift(args, ctx, lambda a: ("p", "(g_%s %s)" % (p[0], " ".join("(%s)" % x for x in a))))
+            return self.lift(args, ctx, lambda a: ("p", "(g_%s %s)" % (self.cn(p[0]), " ".join("(%s)" % x for x in a))))
         self.fail(line, "call of %s is outside the subset" % "::".join(p))
 
     def is_self(self, e):
@@ -914,7 +993,7 @@ class Gen:
             if m not in self.by_name or self.by_name[m]["self"] is None:
                 self.fail(line, "unknown method self.%s" % m)
             c2 = dict(ctx, str_as="string") if m == "error" else ctx
-            return self.lift(args, c2, lambda a: ("m", "g_%s%s" % (m, "".join(" (%s)" % x for x in a))))
+            return self.lift(args, c2, lambda a: ("m", "g_%s%s" % (self.cn(m), "".join(" (%s)" % x for x in a))))
         # self.s.<prim>(..)
         if recv[0] == "field" and self.is_self(recv[1]) and recv[2] == "s":
             if not ctx["self_ok"]:
@@ -1238,7 +1317,7 @@ class Gen:
             if state.get(n) == 1:
                 raise TranslateError("%s: recursion through %s is outside the subset" % (SRC, n))
             state[n] = 1
-            for d in sorted(deps[n]):
+            for d in sorted(deps[n], key=self.cn):
                 visit(d)
             state[n] = 2
             out.append(n)
@@ -1252,6 +1331,8 @@ class Gen:
         params = [(self.var(p), self.ty(t, line)) for p, t in f["params"]]
         ps = "".join(" (%s : %s)" % p for p in params)
         ret = self.ty(f["ret"], line) if f["ret"] else "unit"
+        if f["self"] == "val":
+            self.fail(line, "`self` by value is outside the subset")
         ctx = {"locals": {p for p, _ in f["params"]}, "muts": set(), "self_ok": f["self"] is not None,
                "can_return": f["self"] is not None and f["ret"] == "TokenKind", "loop": None}
         if f["self"] is None:
@@ -1260,11 +1341,11 @@ class Gen:
             k, t = self.block_value(f["body"], ctx)
             if k != "p":
                 self.fail(line, "free function %s is not a pure expression" % name)
-            return "Definition g_%s%s : %s :=\n  %s." % (name, ps, ret, t)
+            return "Definition g_%s%s : %s :=\n  %s." % (self.cn(name), ps, ret, t)
         body = self.stmts(f["body"][1], 0, ctx, ("value",))
         if ctx["can_return"]:
             body = "fn_body %s" % body
-        return "Definition g_%s%s : M %s :=\n  %s." % (name, ps, ret, body)
+        return "Definition g_%s%s : M %s :=\n  %s." % (self.cn(name), ps, ret, body)
 
 
 def pretty(term, width=118):
@@ -1306,10 +1387,10 @@ def translate(repo):
     names = g.order()
     for n in names:
         f = g.by_name[n]
-        o.append("(* fn %s%s *)" % (n, "  [impl %s]" % f["impl"] if f["impl"] else ""))
+        o.append("(* fn %s%s *)" % (g.cn(n), "  [impl %s]" % f["impl"] if f["impl"] else ""))
         o.append(pretty(g.function(f)))
         o.append("")
-    o.append("Definition gen_lexer_functions : list string :=\n  [ %s ]%%string." % "; ".join('"%s"' % n for n in names))
+    o.append("Definition gen_lexer_functions : list string :=\n  [ %s ]%%string." % "; ".join('"%s"' % g.cn(n) for n in names))
     return {"GenLexer.v": "\n".join(o) + "\n"}
 
 
